@@ -43,6 +43,10 @@ def run_one(args):
         lines = [l for l in rr.stdout.splitlines() if l.startswith("C") and " -- " in l]
         res[c] = {"exit": rr.returncode, "rules": sorted(set(l.split(" ")[0] for l in lines)), "first": (lines[0][:300] if lines else "")}
     shutil.rmtree(d, ignore_errors=True)
+    import hashlib, glob
+    suf = "_" + hashlib.sha1((d + "/repo").encode()).hexdigest()[:8]
+    for x in glob.glob("/var/tmp/rusty_paseto_verif/c19" + suf) + glob.glob("/var/tmp/rusty_paseto_verif/c20" + suf):
+        shutil.rmtree(x, ignore_errors=True)
     return name, res
 
 
